@@ -4,10 +4,10 @@ package xmldoc
 // the SHAPE the specification declares for the atom (XmlDoc!Shape): a piece of shape "x" neither starts nor ends with
 // a character a lexical side condition talks about ('-' in comments; ']' and '>' at the edges of CDATA pieces).
 var spell = map[string][]string{
-	"s":    {" ", "\t", "\n", "\r\n", "  ", " \n\t"},
-	"eq":   {"="},
-	"dq":   {`"`},
-	"sq":   {"'"},
+	"s":       {" ", "\t", "\n", "\r\n", "  ", " \n\t"},
+	"eq":      {"="},
+	"dq":      {`"`},
+	"sq":      {"'"},
 	"stag.lt": {"<"}, "stag.gt": {">"}, "stag.void": {"/>"}, "etag.lt": {"</"}, "etag.gt": {">"},
 	"pi.open": {"<?"}, "pi.close": {"?>"},
 	"xd.xml": {"xml"}, "xd.version": {"version"}, "xd.v10": {"1.0"}, "xd.encoding": {"encoding"},
@@ -59,5 +59,7 @@ func init() {
 }
 
 // names: valid XML Names; attribute names of one tag must differ (the k-th attribute takes the (base+k)-th name)
-var enames = []string{"a", "foo", "b1", "x-y", "a.b", "_u", "ns:tag", "él", "A", "foo:bar.qux-norf", "svg"}
-var anames = []string{"b", "id", "x1", "a-b", "c.d", "_v", "xml:lang", "ns:at", "é", "B", "href"}
+var enames = []string{"a", "foo", "b1", "x-y", "a.b", "_u", "ns:tag", "él", "A", "foo:bar.qux-norf", "svg",
+	// names that END in a multi-byte character, among them ones whose last byte is 0x85 / 0xA0 (white space in Latin-1 / Unicode)
+	"voilà", "цех", "é", "drogą"}
+var anames = []string{"b", "id", "x1", "a-b", "c.d", "_v", "xml:lang", "ns:at", "é", "B", "href", "à", "цех"}
